@@ -19,6 +19,9 @@ CHECKS = [
  ("C05", "fault_enumeration", "round-trip property testing around write-path thresholds + generated <=32-bit corruption bursts located with an independent blob parser",
   "Round trip: generated histories with value lengths centred on the 4 KiB single-pass and 80 KiB background-I/O thresholds (relative to header+meta size), three fill kinds, 7 metadata shapes, compared byte-for-byte through read/read_with/Entry::load/load_data/load_meta in every index state and both runtime flavours, plus an enumerated sweep of lengths 0..8300. Corruption: a stored record's data region is XOR-ed with a <=32-bit burst (storage open, or closed and reopened with/without indexes, validation on/off, quarantine/ignore); every query needing the altered bytes must fail or the blob must have been dropped by a validating init; all other queries must equal the model.",
   "CRC32C detects every burst of <=32 bits, so 'must be Err' has no probabilistic slack. Only data bytes are altered (the statement's domain); header/meta damage belongs to C06/C16."),
+ ("C06", "fault_enumeration", "crash-state generation (SIGKILL of a child process; power-loss states rebuilt from the I/O trace) judged against the harness's own parse of the blob files",
+  "Kill: a child process runs a seeded history and is SIGKILLed after a generated number of acknowledgements plus a sub-millisecond delay. Power loss: a history runs under the I/O tap; every file is rebuilt as of a generated event and cut at a generated length beyond its last completed sync (optionally zero-filled tail). In both, init must succeed; every blob whose records tile it exactly must be served in full (all queries equal a model built from the independent parse); every other blob must sit byte-identical in the corrupted dir with a matching count and recovery_blob must return its complete prefix; writes after recovery must survive a further restart, also with all index files lost. Kill additionally: every acknowledged record is physically complete in a served or recoverable blob. Enumerated phase: the active blob cut at a stride of / every byte of its last two records.",
+  "Power-loss model = per-file prefix beyond the last completed sync; directory-entry durability and tearing inside synced data are out of scope (as in the statement). The failing crash directory itself is saved as the replay because trace interleavings differ between runs."),
  ("C07", "exploration", "history invariant over byte snapshots of every blob file + append-only rules over the I/O tap trace",
   "Histories over all public calls, restarts with index damage and crash-restarts with harness-made blob damage that forces quarantine. After every step every *.blob (work dir and corrupted dir) is compared byte-wise with its previous snapshot (prefix-monotone, or moved intact to the corrupted dir and immutable there), new blob ids must never have been used in either directory, and the tap trace must show only append-position writes to blobs, no truncate/remove/foreign rename of a blob, and no mutation event at all while a batch of every query kind runs at idle.",
   "Blob damage injected by the harness re-baselines the snapshot. Crash copies and I/O failpoints are exercised by C06/C11 with their own no-harm clauses."),
